@@ -461,6 +461,66 @@ def inline_local_defs(fn):
                         nested[st.name] = st
                         holder[st.name] = (par, fld)
     changed = False
+    # local procedures: a nested def that only consists of expression
+    # statements (calls on its parameters), called as a statement with
+    # plain names -> its statements at the call
+    for name, d in list(nested.items()):
+        if d is None:
+            continue
+        a = d.args
+        body = [b for b in d.body if not (isinstance(b, ast.Expr)
+                                          and isinstance(b.value,
+                                                         ast.Constant))]
+        if not body or a.vararg or a.kwarg or a.posonlyargs or \
+                a.kwonlyargs or a.defaults or not all(
+                    isinstance(b, ast.Expr) and isinstance(b.value, ast.Call)
+                    for b in body) or any(isinstance(n, (
+                        ast.Lambda, ast.NamedExpr, ast.Yield, ast.Await))
+                        for b in body for n in ast.walk(b)):
+            continue
+        params = [p.arg for p in a.args]
+        uses = [n for n in ast.walk(fn) if isinstance(n, ast.Name)
+                and n.id == name]
+        sites = []
+        for par in [fn] + list(_walk_own(fn)):
+            for fld in ("body", "orelse", "finalbody"):
+                blk = getattr(par, fld, None)
+                if isinstance(blk, list):
+                    for st in blk:
+                        if isinstance(st, ast.Expr) and isinstance(
+                                st.value, ast.Call) and isinstance(
+                                st.value.func, ast.Name) and \
+                                st.value.func.id == name:
+                            sites.append((blk, st))
+        if not sites or len(uses) != len(sites):
+            continue
+        free = {n.id for b in body for n in ast.walk(b)
+                if isinstance(n, ast.Name) and n.id not in params}
+        nst = {}
+        for n in ast.walk(fn):
+            if isinstance(n, ast.Name) and isinstance(
+                    n.ctx, (ast.Store, ast.Del)):
+                nst[n.id] = nst.get(n.id, 0) + 1
+        if any(nst.get(f, 0) > 1 for f in free):
+            continue
+        ok = all(not st.value.keywords and len(st.value.args) == len(params)
+                 and all(isinstance(x, (ast.Name, ast.Constant))
+                         for x in st.value.args) for _, st in sites)
+        if not ok:
+            continue
+        for blk, st in sites:
+            m = dict(zip(params, st.value.args))
+            new = [_SubstNames(m).visit(clone(b)) for b in body]
+            for x in new:
+                ast.copy_location(x, st)
+                ast.fix_missing_locations(x)
+            i = [k for k, x in enumerate(blk) if x is st][0]
+            blk[i:i + 1] = new
+        par, fld = holder[name]
+        setattr(par, fld, [s_ for s_ in getattr(par, fld) if s_ is not d]
+                or [ast.Pass()])
+        nested[name] = None
+        changed = True
     for name, d in nested.items():
         if d is None:
             continue
@@ -592,6 +652,26 @@ class Idioms3(ast.NodeTransformer):
     def visit_Call(self, node):
         self.generic_visit(node)
         fn = norm(node.func)
+        # any(C(i) for i in range(<small literal>)) -> C(0) or C(1) or ...
+        if fn in ("any", "all") and len(node.args) == 1 and \
+                not node.keywords and isinstance(
+                    node.args[0], (ast.GeneratorExp, ast.ListComp)) and len(
+                    node.args[0].generators) == 1:
+            g = node.args[0].generators[0]
+            if not g.ifs and isinstance(g.target, ast.Name) and isinstance(
+                    g.iter, ast.Call) and norm(g.iter.func) == "range" and \
+                    len(g.iter.args) == 1 and isinstance(
+                        g.iter.args[0], ast.Constant) and isinstance(
+                        g.iter.args[0].value, int) and \
+                    1 <= g.iter.args[0].value <= self.MAX:
+                vals = [self.visit(_SubstNames({g.target.id: ast.Constant(
+                    value=k)}).visit(clone(node.args[0].elt)))
+                    for k in range(g.iter.args[0].value)]
+                if len(vals) == 1:
+                    return ast.copy_location(vals[0], node)
+                return ast.copy_location(ast.BoolOp(
+                    op=ast.Or() if fn == "any" else ast.And(),
+                    values=vals), node)
         # abs(<literal arithmetic>) -> the non-negative form
         if fn == "abs" and len(node.args) == 1 and not node.keywords:
             v = _closed_number(node.args[0])
@@ -2310,6 +2390,7 @@ def _value_class_spec(cls):
     if init is None:
         return None
     fields = []
+    init_params = {a.arg for a in init.args.args}
     for st in init.body:
         if isinstance(st, ast.Expr) and isinstance(st.value, ast.Constant):
             continue
@@ -2319,7 +2400,30 @@ def _value_class_spec(cls):
                 st.targets[0].value.id == "self":
             fields.append((st.targets[0].attr, st.value))
             continue
+        # a temporary of the constructor: kept as one more (hidden) field
+        if isinstance(st, ast.Assign) and len(st.targets) == 1 and \
+                isinstance(st.targets[0], ast.Name) and \
+                st.targets[0].id not in init_params:
+            tmp = st.targets[0].id
+            fields.append(("_tmp_" + tmp, st.value))
+            for later in init.body[init.body.index(st) + 1:]:
+                for n in ast.walk(later):
+                    if isinstance(n, ast.Name) and n.id == tmp and \
+                            isinstance(n.ctx, ast.Load):
+                        n.id = "__self_tmp__" + tmp
+            continue
         return None
+    # reads of constructor temporaries -> reads of the hidden field
+    class _Tmp(ast.NodeTransformer):
+        def visit_Name(self, n):
+            if n.id.startswith("__self_tmp__"):
+                return ast.copy_location(ast.Attribute(
+                    value=ast.Name(id="self", ctx=ast.Load()),
+                    attr="_tmp_" + n.id[len("__self_tmp__"):],
+                    ctx=ast.Load()), n)
+            return n
+    fields = [(f, ast.fix_missing_locations(_Tmp().visit(e)))
+              for f, e in fields]
     names = [f for f, _ in fields]
     if not fields or len(set(names)) != len(names):
         return None
@@ -2365,7 +2469,7 @@ class _SelfToFields(ast.NodeTransformer):
             for k in node.keywords:
                 k.value = self.visit(k.value)
             return ast.copy_location(ast.Call(
-                func=ast.Name(id=f"_{self.cname}__{node.func.attr}",
+                func=ast.Name(id=f"_vo_{self.cname.strip('_')}__{node.func.attr}",
                               ctx=ast.Load()),
                 args=self.field_args() + node.args,
                 keywords=node.keywords), node)
@@ -2378,7 +2482,7 @@ class _SelfToFields(ast.NodeTransformer):
                     id=self.prefix + node.attr, ctx=node.ctx), node)
             if node.attr in self.props:
                 return ast.copy_location(ast.Call(
-                    func=ast.Name(id=f"_{self.cname}__{node.attr}",
+                    func=ast.Name(id=f"_vo_{self.cname.strip('_')}__{node.attr}",
                                   ctx=ast.Load()),
                     args=self.field_args(), keywords=[]), node)
         return self.generic_visit(node)
@@ -2483,13 +2587,13 @@ def inline_value_objects(tree):
                 elif a.attr in props:
                     synthesised.add((cname, a.attr))
                     _replace_in(fn, a, ast.Call(
-                        func=ast.Name(id=f"_{cname}__{a.attr}",
+                        func=ast.Name(id=f"_vo_{cname.strip('_')}__{a.attr}",
                                       ctx=ast.Load()),
                         args=fargs(), keywords=[]))
                 else:
                     c = calls[id(a)]
                     synthesised.add((cname, a.attr))
-                    c.func = ast.Name(id=f"_{cname}__{a.attr}",
+                    c.func = ast.Name(id=f"_vo_{cname.strip('_')}__{a.attr}",
                                       ctx=ast.Load())
                     c.args = fargs() + c.args
             # the construction
@@ -2527,7 +2631,7 @@ def inline_value_objects(tree):
         body = [_SelfToFields(cname, names, members, props, prefix,
                               fargs).visit(b) for b in m.body]
         f2 = ast.FunctionDef(
-            name=f"_{cname}__{mname}",
+            name=f"_vo_{cname.strip('_')}__{mname}",
             args=ast.arguments(
                 posonlyargs=[], args=[ast.arg(arg=prefix + f) for f in names]
                 + m.args.args[1:], vararg=None, kwonlyargs=[],
@@ -2539,11 +2643,18 @@ def inline_value_objects(tree):
         f2._synth = True
         tree.body.append(f2)
     # a class that is not referred to any more is not part of the program
+    dead = set()
+    for f_ in ast.walk(tree):
+        if isinstance(f_, ast.FunctionDef) and getattr(
+                f_, "_inlined_helper", False):
+            dead |= {id(n) for n in ast.walk(f_)}
     for cname, (cls, _) in specs.items():
+        inside = {id(n) for n in ast.walk(cls)}
         if not any(isinstance(n, ast.Name) and n.id == cname
+                   and id(n) not in dead and id(n) not in inside
                    for n in ast.walk(tree)) and not any(
                 isinstance(n, ast.Attribute) and n.attr == cname
-                for n in ast.walk(tree)):
+                and id(n) not in dead for n in ast.walk(tree)):
             tree.body = [b for b in tree.body if b is not cls]
     return True
 
@@ -2671,6 +2782,31 @@ def inline_private_properties(tree):
         for name in list(props):
             if name in setters:
                 del props[name]
+        # a private read-only property with a longer body becomes a private
+        # method (the helper inliner places it at its uses)
+        for m in cls.body:
+            if isinstance(m, ast.FunctionDef) and [
+                    norm(d) for d in m.decorator_list] == ["property"] and \
+                    m.name.startswith("_") and not m.name.startswith("__") \
+                    and m.name not in props and m.name not in setters and \
+                    len(m.args.args) == 1:
+                uses = [x for x in ast.walk(tree) if isinstance(
+                    x, ast.Attribute) and x.attr == m.name]
+                inside = [x for c_ in cls.body if isinstance(
+                    c_, ast.FunctionDef) and c_.args.args
+                    for x in ast.walk(c_) if isinstance(x, ast.Attribute)
+                    and x.attr == m.name and isinstance(x.ctx, ast.Load)
+                    and isinstance(x.value, ast.Name)
+                    and x.value.id == c_.args.args[0].arg]
+                if not uses or len(uses) != len(inside):
+                    continue
+                m.decorator_list = []
+                for x in inside:
+                    _replace_in(tree, x, ast.Call(
+                        func=ast.Attribute(value=x.value, attr=x.attr,
+                                           ctx=ast.Load()),
+                        args=[], keywords=[]))
+                done = True
         if not props:
             continue
         for _ in range(3):
@@ -2711,6 +2847,486 @@ def inline_private_properties(tree):
                     ast.Pass()]
     if done:
         ast.fix_missing_locations(tree)
+    return done
+
+
+def inline_search_helpers(tree):
+    """A private function of the form `for t in IT: if C: return t` followed
+    by `raise E` (or `return D`), called as `v = helper(args)`, is placed at
+    the call site as the search loop itself: `for v in IT: if C: break`
+    `else: raise E` (resp. `else: v = D`)."""
+    helpers = {}
+    for st in tree.body:
+        if not (isinstance(st, ast.FunctionDef) and not st.decorator_list and (
+                (st.name.startswith("_") and not st.name.startswith("__"))
+                or getattr(st, "_spliced", False))):
+            continue
+        a = st.args
+        if a.vararg or a.kwarg or a.kwonlyargs or a.posonlyargs or a.defaults:
+            continue
+        body = [b for b in st.body if not (isinstance(b, ast.Expr)
+                                           and isinstance(b.value,
+                                                          ast.Constant))]
+        if len(body) != 2 or not isinstance(body[0], ast.For) or \
+                body[0].orelse or not isinstance(body[0].target, ast.Name) \
+                or len(body[0].body) != 1:
+            continue
+        lp, tail = body
+        inner = lp.body[0]
+        if not (isinstance(inner, ast.If) and not inner.orelse and len(
+                inner.body) == 1 and isinstance(inner.body[0], ast.Return)
+                and isinstance(inner.body[0].value, ast.Name)
+                and inner.body[0].value.id == lp.target.id):
+            continue
+        if not (isinstance(tail, ast.Raise) or (isinstance(
+                tail, ast.Return) and tail.value is not None and isinstance(
+                tail.value, (ast.Constant, ast.Name)))):
+            continue
+        helpers[st.name] = (st, lp, inner, tail)
+    if not helpers:
+        return False
+    done = False
+    used = set()
+    for fn in [n for n in ast.walk(tree) if isinstance(n, ast.FunctionDef)]:
+        if fn.name in helpers and fn in tree.body:
+            continue
+        for par in [fn] + list(_walk_own(fn)):
+            for fld in ("body", "orelse", "finalbody"):
+                blk = getattr(par, fld, None)
+                if not isinstance(blk, list):
+                    continue
+                for i, st in enumerate(blk):
+                    if not (isinstance(st, ast.Assign) and len(
+                            st.targets) == 1 and isinstance(
+                            st.targets[0], ast.Name) and isinstance(
+                            st.value, ast.Call) and isinstance(
+                            st.value.func, ast.Name)
+                            and st.value.func.id in helpers):
+                        continue
+                    hfn, lp, inner, tail = helpers[st.value.func.id]
+                    call = st.value
+                    params = [a.arg for a in hfn.args.args]
+                    if call.keywords or len(call.args) != len(params) or \
+                            not all(isinstance(a, (ast.Name, ast.Constant))
+                                    for a in call.args):
+                        continue
+                    v = st.targets[0].id
+                    if v in params:
+                        continue
+                    m = dict(zip(params, call.args))
+                    m[lp.target.id] = ast.Name(id=v, ctx=ast.Load())
+                    test = _SubstNames(m).visit(clone(inner.test))
+                    it = _SubstNames(m).visit(clone(lp.iter))
+                    if isinstance(tail, ast.Raise):
+                        els = [_SubstNames(m).visit(clone(tail))]
+                    else:
+                        els = [ast.Assign(
+                            targets=[ast.Name(id=v, ctx=ast.Store())],
+                            value=_SubstNames(m).visit(clone(tail.value)))]
+                    new = ast.For(
+                        target=ast.Name(id=v, ctx=ast.Store()), iter=it,
+                        body=[ast.If(test=test, body=[ast.Break()],
+                                     orelse=[])],
+                        orelse=els, type_comment=None)
+                    ast.copy_location(new, st)
+                    ast.fix_missing_locations(new)
+                    blk[i] = new
+                    used.add(st.value.func.id)
+                    done = True
+    for name in used:
+        if not any(isinstance(n, ast.Name) and n.id == name
+                   for n in ast.walk(tree)):
+            helpers[name][0]._inlined_helper = True
+    return done
+
+
+def inline_loop_helpers(tree):
+    """Private module-level functions that return from inside a loop (which
+    the helper inliner leaves alone) are placed at call sites of the two
+    forms that keep their control flow intact:
+    `return helper(args)` -> the helper's statements, returns unchanged;
+    `v = helper(args)` with the helper of the shape `<statements>; <one loop
+    whose returns sit directly in it>; raise E | return D` -> the statements,
+    the loop with `return X` turned into `v = X; break`, and the tail in the
+    loop's `else`."""
+    helpers = {}
+    for st in tree.body:
+        if isinstance(st, ast.FunctionDef) and not st.decorator_list and (
+                (st.name.startswith("_") and not st.name.startswith("__"))
+                or getattr(st, "_spliced", False)):
+            a = st.args
+            if a.vararg or a.kwarg or a.posonlyargs:
+                continue
+            body = [b for b in st.body if not (isinstance(
+                b, ast.Expr) and isinstance(b.value, ast.Constant))]
+            if not body or any(isinstance(n, (
+                    ast.Yield, ast.YieldFrom, ast.Global, ast.Nonlocal,
+                    ast.Lambda)) or (isinstance(n, ast.FunctionDef)
+                                     and n is not st)
+                    for n in ast.walk(st)):
+                continue
+            if any(isinstance(n, ast.Call) and isinstance(
+                    n.func, ast.Name) and n.func.id == st.name
+                    for n in ast.walk(st)):
+                continue
+            in_loop = [r for lp in ast.walk(st) if isinstance(
+                lp, (ast.For, ast.While)) for r in ast.walk(lp)
+                if isinstance(r, ast.Return)]
+            if not in_loop:
+                continue      # the ordinary helper inliner handles it
+            helpers[st.name] = (st, body)
+    if not helpers:
+        return False
+    counter = [0]
+
+    def instantiate(hfn, body, call):
+        a = hfn.args
+        params = [x.arg for x in a.args] + [x.arg for x in a.kwonlyargs]
+        bound = {}
+        if any(isinstance(x, ast.Starred) for x in call.args) or any(
+                k.arg is None for k in call.keywords) or len(
+                call.args) > len(a.args):
+            return None
+        for p_, v_ in zip([x.arg for x in a.args], call.args):
+            bound[p_] = v_
+        for k in call.keywords:
+            if k.arg in bound or k.arg not in params:
+                return None
+            bound[k.arg] = k.value
+        defaults = dict(zip([x.arg for x in a.args][len(a.args) - len(
+            a.defaults):], a.defaults))
+        for x, d in zip(a.kwonlyargs, a.kw_defaults):
+            if d is not None:
+                defaults[x.arg] = d
+        for p_ in params:
+            if p_ not in bound:
+                if p_ not in defaults:
+                    return None
+                bound[p_] = defaults[p_]
+        counter[0] += 1
+        suf = f"__l{counter[0]}"
+        stored = {n.id for b in body for n in ast.walk(b)
+                  if isinstance(n, ast.Name) and isinstance(
+                      n.ctx, (ast.Store, ast.Del))}
+        pre = []
+        ren = {}
+        for p_ in params:
+            e = bound[p_]
+            if p_ in stored or not isinstance(e, (ast.Name, ast.Constant)):
+                pre.append(ast.Assign(
+                    targets=[ast.Name(id=p_ + suf, ctx=ast.Store())],
+                    value=clone(e)))
+                ren[p_] = p_ + suf
+        for nm in stored:
+            ren.setdefault(nm, nm + suf)
+        new = [clone(b) for b in body]
+        subst = {p_: bound[p_] for p_ in params if p_ not in ren}
+        for b in new:
+            for n in ast.walk(b):
+                if isinstance(n, ast.Name) and n.id in ren:
+                    n.id = ren[n.id]
+        new = [_SubstNames(subst).visit(b) for b in new]
+        return pre + new
+
+    done = False
+    for fn in [n for n in ast.walk(tree) if isinstance(n, ast.FunctionDef)]:
+        if fn.name in helpers and any(fn is h[0] for h in helpers.values()):
+            continue
+        for par in [fn] + list(_walk_own(fn)):
+            for fld in ("body", "orelse", "finalbody"):
+                blk = getattr(par, fld, None)
+                if not isinstance(blk, list):
+                    continue
+                i = 0
+                while i < len(blk):
+                    st = blk[i]
+                    val = getattr(st, "value", None)
+                    if not (isinstance(val, ast.Call) and isinstance(
+                            val.func, ast.Name) and val.func.id in helpers):
+                        i += 1
+                        continue
+                    hfn, body = helpers[val.func.id]
+                    if isinstance(st, ast.Return) and par is fn and \
+                            fld == "body" and i == len(blk) - 1:
+                        inst = instantiate(hfn, body, val)
+                        if inst is None:
+                            i += 1
+                            continue
+                    elif isinstance(st, ast.Assign) and len(
+                            st.targets) == 1 and isinstance(
+                            st.targets[0], ast.Name):
+                        # <stmts>; loop; tail
+                        loops = [k for k, b in enumerate(body) if isinstance(
+                            b, (ast.For, ast.While))]
+                        if len(loops) != 1 or loops[0] != len(body) - 2:
+                            i += 1
+                            continue
+                        lp, tail = body[-2], body[-1]
+                        if lp.orelse or any(isinstance(n, ast.Return)
+                                            for b in body[:-2]
+                                            for n in ast.walk(b)):
+                            i += 1
+                            continue
+                        if not (isinstance(tail, ast.Raise) or isinstance(
+                                tail, ast.Return)):
+                            i += 1
+                            continue
+                        # returns/breaks directly in this loop only
+                        bad = False
+                        for n in ast.walk(lp):
+                            if isinstance(n, (ast.For, ast.While)) and \
+                                    n is not lp and any(isinstance(
+                                        x, (ast.Return, ast.Break))
+                                        for x in ast.walk(n)):
+                                bad = True
+                            if isinstance(n, ast.Break):
+                                bad = True
+                        if bad:
+                            i += 1
+                            continue
+                        inst = instantiate(hfn, body, val)
+                        if inst is None:
+                            i += 1
+                            continue
+                        v = st.targets[0].id
+                        lp2, tail2 = inst[-2], inst[-1]
+
+                        def fix(stmts):
+                            out = []
+                            for s_ in stmts:
+                                if isinstance(s_, ast.Return):
+                                    out.append(ast.Assign(
+                                        targets=[ast.Name(id=v,
+                                                          ctx=ast.Store())],
+                                        value=s_.value or ast.Constant(
+                                            value=None)))
+                                    out.append(ast.Break())
+                                    continue
+                                for f2 in ("body", "orelse", "finalbody"):
+                                    b2 = getattr(s_, f2, None)
+                                    if isinstance(b2, list) and b2 and \
+                                            isinstance(b2[0], ast.stmt):
+                                        setattr(s_, f2, fix(b2))
+                                if isinstance(s_, ast.Try):
+                                    for h_ in s_.handlers:
+                                        h_.body = fix(h_.body)
+                                out.append(s_)
+                            return out
+                        lp2.body = fix(lp2.body)
+                        if isinstance(tail2, ast.Return):
+                            tail2 = ast.Assign(
+                                targets=[ast.Name(id=v, ctx=ast.Store())],
+                                value=tail2.value or ast.Constant(value=None))
+                        lp2.orelse = [tail2]
+                        inst = inst[:-1]
+                    else:
+                        i += 1
+                        continue
+                    for x in inst:
+                        ast.copy_location(x, st)
+                        ast.fix_missing_locations(x)
+                    blk[i:i + 1] = inst
+                    hfn._inlined_helper = True
+                    done = True
+                    i += len(inst)
+    # helpers still called somewhere stay part of the program
+    for name, (hfn, _) in helpers.items():
+        if getattr(hfn, "_inlined_helper", False):
+            dead = {id(n) for n in ast.walk(hfn)}
+            if any(isinstance(n, ast.Name) and n.id == name
+                   and id(n) not in dead for n in ast.walk(tree)):
+                hfn._inlined_helper = False
+    return done
+
+
+def comprehension_calls_to_loops(tree):
+    """`v = [helper(..) for t in IT]` where `helper` is a private function
+    or method of more than one statement -> `v = []` + `for t in IT:
+    v.append(helper(..))`, so that the helper's branches can be placed in the
+    loop (statements cannot be placed inside a comprehension)."""
+    multi = set()
+    for st in tree.body:
+        if isinstance(st, ast.FunctionDef) and st.name.startswith("_") and \
+                not st.name.startswith("__"):
+            body = [b for b in st.body if not (isinstance(
+                b, ast.Expr) and isinstance(b.value, ast.Constant))]
+            if len(body) > 1:
+                multi.add((None, st.name))
+        elif isinstance(st, ast.ClassDef):
+            for m in st.body:
+                if isinstance(m, ast.FunctionDef) and m.name.startswith(
+                        "_") and not m.name.startswith("__"):
+                    body = [b for b in m.body if not (isinstance(
+                        b, ast.Expr) and isinstance(b.value, ast.Constant))]
+                    if len(body) > 1:
+                        multi.add(("self", m.name))
+    if not multi:
+        return False
+    done = False
+    for fn in [n for n in ast.walk(tree) if isinstance(n, ast.FunctionDef)]:
+        for par in [fn] + list(_walk_own(fn)):
+            for fld in ("body", "orelse", "finalbody"):
+                blk = getattr(par, fld, None)
+                if not isinstance(blk, list):
+                    continue
+                i = 0
+                while i < len(blk):
+                    st = blk[i]
+                    i += 1
+                    if not (isinstance(st, ast.Assign) and len(
+                            st.targets) == 1 and isinstance(
+                            st.targets[0], ast.Name) and isinstance(
+                            st.value, ast.ListComp) and len(
+                            st.value.generators) == 1 and not
+                            st.value.generators[0].ifs and not
+                            st.value.generators[0].is_async and isinstance(
+                                st.value.elt, ast.Call)):
+                        continue
+                    c = st.value.elt
+                    key = None
+                    if isinstance(c.func, ast.Name):
+                        key = (None, c.func.id)
+                    elif isinstance(c.func, ast.Attribute) and isinstance(
+                            c.func.value, ast.Name) and \
+                            c.func.value.id in ("self", "cls"):
+                        key = ("self", c.func.attr)
+                    if key not in multi:
+                        continue
+                    v = st.targets[0].id
+                    g = st.value.generators[0]
+                    if any(isinstance(n, ast.Name) and n.id == v
+                           for n in ast.walk(st.value)):
+                        continue
+                    init = ast.Assign(
+                        targets=[ast.Name(id=v, ctx=ast.Store())],
+                        value=ast.List(elts=[], ctx=ast.Load()))
+                    loop = ast.For(
+                        target=g.target, iter=g.iter,
+                        body=[ast.Expr(value=ast.Call(
+                            func=ast.Attribute(
+                                value=ast.Name(id=v, ctx=ast.Load()),
+                                attr="append", ctx=ast.Load()),
+                            args=[c], keywords=[]))],
+                        orelse=[], type_comment=None)
+                    for x in (init, loop):
+                        ast.copy_location(x, st)
+                        ast.fix_missing_locations(x)
+                    blk[i - 1:i] = [init, loop]
+                    i += 1
+                    done = True
+    return done
+
+
+def predicate_loops(tree):
+    """A private function `for t in IT: if C: return True` + `return False`
+    is `return any(C for t in IT)` (and the all() counterpart): one
+    expression, which the helper inliner can place anywhere."""
+    done = False
+    for holder in [tree] + [c for c in tree.body
+                            if isinstance(c, ast.ClassDef)]:
+        for st in holder.body:
+            if not (isinstance(st, ast.FunctionDef) and st.name.startswith(
+                    "_") and not st.name.startswith("__")):
+                continue
+            body = [b for b in st.body if not (isinstance(
+                b, ast.Expr) and isinstance(b.value, ast.Constant))]
+            if len(body) != 2 or not isinstance(body[0], ast.For) or \
+                    body[0].orelse or len(body[0].body) != 1 or \
+                    not isinstance(body[1], ast.Return):
+                continue
+            lp, tail = body
+            inner = lp.body[0]
+            if not (isinstance(inner, ast.If) and not inner.orelse and len(
+                    inner.body) == 1 and isinstance(inner.body[0], ast.Return)
+                    and isinstance(inner.body[0].value, ast.Constant)
+                    and isinstance(tail.value, ast.Constant)
+                    and isinstance(inner.body[0].value.value, bool)
+                    and isinstance(tail.value.value, bool)
+                    and inner.body[0].value.value != tail.value.value):
+                continue
+            found = inner.body[0].value.value
+            test = inner.test if found else ast.UnaryOp(op=ast.Not(),
+                                                        operand=inner.test)
+            gen = ast.GeneratorExp(elt=test, generators=[ast.comprehension(
+                target=lp.target, iter=lp.iter, ifs=[], is_async=0)])
+            call = ast.Call(func=ast.Name(id="any" if found else "all",
+                                          ctx=ast.Load()),
+                            args=[gen], keywords=[])
+            doc = [b for b in st.body[:1] if isinstance(b, ast.Expr)
+                   and isinstance(b.value, ast.Constant)]
+            st.body = doc + [ast.copy_location(ast.Return(value=call), lp)]
+            ast.fix_missing_locations(st)
+            done = True
+    return done
+
+
+def indexed_tuples(fn):
+    """`k = (a, b, c)` (plain names/literals, bound once each) with k only
+    ever read as `k[<literal index>]` -> the elements themselves."""
+    stores = {}
+    for n in ast.walk(fn):
+        if isinstance(n, ast.Name) and isinstance(n.ctx, (ast.Store,
+                                                          ast.Del)):
+            stores[n.id] = stores.get(n.id, 0) + 1
+        elif isinstance(n, ast.arg):
+            stores[n.arg] = stores.get(n.arg, 0) + 1
+    done = False
+    for par in [fn] + list(_walk_own(fn)):
+        for fld in ("body", "orelse", "finalbody"):
+            blk = getattr(par, fld, None)
+            if not isinstance(blk, list):
+                continue
+            for st in list(blk):
+                if not (isinstance(st, ast.Assign) and len(st.targets) == 1
+                        and isinstance(st.targets[0], ast.Name)
+                        and isinstance(st.value, (ast.Tuple, ast.List))
+                        and st.value.elts and all(
+                            isinstance(e, (ast.Name, ast.Constant))
+                            for e in st.value.elts)):
+                    continue
+                k = st.targets[0].id
+                if stores.get(k) != 1:
+                    continue
+                # the elements keep their value from here on: no store of
+                # an element name after this statement (and no enclosing
+                # loop that could run an earlier store again)
+                enames = {e.id for e in st.value.elts
+                          if isinstance(e, ast.Name)}
+                late = any(isinstance(n, ast.Name) and n.id in enames
+                           and isinstance(n.ctx, (ast.Store, ast.Del))
+                           and getattr(n, "lineno", 0) >= st.lineno
+                           for n in ast.walk(fn))
+                in_loop = isinstance(par, (ast.For, ast.While)) or any(
+                    isinstance(lp, (ast.For, ast.While)) and any(
+                        x is st for x in ast.walk(lp))
+                    for lp in ast.walk(fn))
+                if late or in_loop:
+                    continue
+                refs = [n for n in ast.walk(fn) if isinstance(n, ast.Name)
+                        and n.id == k and isinstance(n.ctx, ast.Load)]
+                subs = [n for n in ast.walk(fn) if isinstance(
+                    n, ast.Subscript) and isinstance(n.value, ast.Name)
+                    and n.value.id == k and isinstance(n.ctx, ast.Load)
+                    and isinstance(n.slice, ast.Constant) and isinstance(
+                        n.slice.value, int) and not isinstance(
+                        n.slice.value, bool)
+                    and -len(st.value.elts) <= n.slice.value < len(
+                        st.value.elts)]
+                if not refs or len(refs) != len(subs):
+                    continue
+                if any(isinstance(d, (ast.Lambda, ast.FunctionDef))
+                       and d is not fn and any(
+                           isinstance(n, ast.Name) and n.id == k
+                           for n in ast.walk(d)) for d in ast.walk(fn)):
+                    continue
+                for sb in subs:
+                    _replace_in(fn, sb, clone(st.value.elts[sb.slice.value]))
+                blk.remove(st)
+                if not blk:
+                    blk.append(ast.copy_location(ast.Pass(), st))
+                done = True
+    if done:
+        ast.fix_missing_locations(fn)
     return done
 
 
